@@ -335,7 +335,8 @@ struct VS {
 };
 static VS  g_socks[64];
 static int g_nsocks = 0;
-static int g_reply_mode[4]; // per server: 0 silent, 1 answer at once
+static int g_reply_mode[4]; // per server: 0 silent, 1 answer at once, 2 answer SERVFAIL at once
+static std::atomic<int> g_fail_send[4]; // per server: the next send towards it fails with ECONNRESET (counted down)
 static std::atomic<int> g_tx{ 0 };
 
 NO_TSAN static VS *vs_of(int fd)
@@ -444,6 +445,11 @@ static ares_ssize_t s_sendto(ares_socket_t fd, const void *buf, size_t len, int,
     errno = EBADF;
     return -1;
   }
+  if (s->server >= 0 && s->server < 4 && g_fail_send[s->server] > 0) {
+    g_fail_send[s->server]--;
+    errno = ECONNRESET;
+    return -1;
+  }
   g_tx++;
   vdns::Bytes m((const unsigned char *)buf, (const unsigned char *)buf + len);
   if (s->tcp) {
@@ -451,8 +457,11 @@ static ares_ssize_t s_sendto(ares_socket_t fd, const void *buf, size_t len, int,
     m.erase(m.begin(), m.begin() + 2); // one whole frame per send in these programs
   }
   vdns::Query q = vdns::parse_query(m);
-  if (q.ok && !q.q.empty() && s->server >= 0 && s->server < 4 && g_reply_mode[s->server] == 1) {
+  if (q.ok && !q.q.empty() && s->server >= 0 && s->server < 4 && g_reply_mode[s->server] >= 1) {
     vdns::Bytes r = make_reply(q);
+    if (g_reply_mode[s->server] == 2 && r.size() > 3) {
+      r[3] = (unsigned char)((r[3] & 0xf0) | 2); // SERVFAIL
+    }
     if (s->tcp) {
       unsigned char l[2] = { (unsigned char)(r.size() >> 8), (unsigned char)(r.size() & 0xff) };
       exb_raw_write(s->peer, l, 2);
@@ -699,6 +708,30 @@ static std::vector<Prog> programs()
                    if (g_toks[t].count == 1 && g_toks[t].status != ARES_SUCCESS)
                      viol("C11:event-thread:answer-on-replaced-socket-not-seen", fmt("token %d ended with status %d although the new server answers every query at once", t, (int)g_toks[t].status));
                } });
+  v.push_back({ "P11-flush-fails-on-the-event-thread-failover-to-an-established-connection", "c11", ARES_FLAG_USEVC | ARES_FLAG_STAYOPEN, 0, 1, 1, [](ares_channel_t *ch) {
+                 // TCP, connections kept open. The first server holds an established connection that is busy with an
+                 // unanswered query; a second server is then put in front of it and warmed up (established, idle,
+                 // healthy). One send towards that preferred server then fails: the event thread, while serving the
+                 // deferred write, fails the query over to the first server's established connection, which announces
+                 // pending data to the event thread itself from inside ares_process_pending_write() - that
+                 // announcement must not be lost (the first server now answers at once)
+                 q_query(ch, "busy.example.com");
+                 wait_for_tx(1, 500);
+                 ares_set_servers_ports_csv(ch, "10.0.0.2:53,10.0.0.1:53");
+                 q_query(ch, "warm.example.com");
+                 wait_for_tx(2, 500);
+                 vsleep(25);
+                 g_reply_mode[0] = 1;
+                 g_fail_send[1]  = 1;
+                 int64_t t0      = exb_now_us();
+                 int     t       = g_ntoks;
+                 Client *a       = spawn([ch] { q_query(ch, "a.example.com"); });
+                 join(a);
+                 wait_all(ch, "P11");
+                 if (t < g_ntoks && g_toks[t].count == 1 && (g_toks[t].status != ARES_SUCCESS || g_toks[t].t_done - t0 >= (int64_t)TIMEOUT_MS * 1000))
+                   viol("C11:event-thread:pending-write-announcement-lost", fmt("the query failed over to a server that answers at once, yet it ended with status %d after %lld ms (a timeout was needed)",
+                                                                                  (int)g_toks[t].status, (long long)((g_toks[t].t_done - t0) / 1000)));
+               } });
   v.push_back({ "P7-destroy-while-busy", "c11", 0, 1, 0, 1, [](ares_channel_t *ch) {
                  q_query(ch, "a.example.com");
                  q_query(ch, "b.example.com");
@@ -802,6 +835,7 @@ static void run_program(const Prog &p, int evsys, const unsigned char *prefix, i
   g_reply_mode[0] = p.reply0;
   g_reply_mode[1] = p.reply1;
   g_tcp_blackhole = strstr(p.name, "connect-never-completes") != nullptr;
+  for (auto &x : g_fail_send) x = 0;
   ares_library_init_mem(ARES_LIB_INIT_ALL, m_malloc, m_free, m_realloc);
   struct ares_options o;
   memset(&o, 0, sizeof o);
